@@ -1,16 +1,20 @@
 #!/bin/bash
-# Re-runs every stored independent change (seeded/<ID>-n/patch.diff) against the check of the property it
-# targets and prints whether it is (still) detected. Applies to /repo, checks, reverts. One at a time.
+# Re-runs every stored independent change (seeded/<ID>-n/patch.diff) against the check(s) that detected it
+# (meta.json "detected_by"; the targeted property if none did) and prints whether it is (still) detected.
+# Applies to /repo, checks, reverts. One at a time.
 cd /verif
 for d in seeded/*/; do
-  id=$(basename $d); prop=${id:0:3}
+  id=$(basename $d)
   [ -f $d/patch.diff ] || continue
+  props=$(python3 -c "import json,sys; m=json.load(open('$d/meta.json')); print(' '.join(m.get('detected_by') or [m['property']]))")
   cd /repo; git diff --quiet || { echo "repo dirty"; exit 2; }
   git apply /verif/$d/patch.diff 2>/dev/null || { echo "$id: patch does not apply"; cd /verif; continue; }
   cd /verif
-  out=$(VERIF_NO_EVIDENCE=1 timeout 1500 ./check $prop quick 2>&1); code=$?
-  cls=$(echo "$out" | grep -m1 "class=" | sed 's/.*class=\([^ ]*\).*/\1/')
-  echo "$id: $prop exit=$code ${cls}"
+  for prop in $props; do
+    out=$(VERIF_NO_EVIDENCE=1 timeout 1500 ./check $prop quick 2>&1); code=$?
+    cls=$(echo "$out" | grep -m1 "class=" | sed 's/.*class=\([^ ]*\).*/\1/')
+    echo "$id: $prop exit=$code ${cls}"
+  done
   git -C /repo checkout -- .
   find /verif/replays -name '*.json' -delete
 done
